@@ -1007,4 +1007,754 @@ theorem src_ss_rollover_rolled (lfuel : Nat) (st : SS) (h : st.buffer.real = tru
 /-- non-vacuity: a code-point traversal over multi-byte text meets the hypotheses of the traverse / seek ties -/
 example : travOk 3 (SStr.bseek ⟨⟨encode ['a', 'é', '日'], 6⟩, {}, 3, false, 100, 2⟩ 0) 0 2 = true := by decide
 
+/-! ## 5. SpooledStringIO, round 3f: `len`, `seek(·, 1|2)`, `readline`, `rollover`, `write` completed -/
+
+/-- the model's `lenLoop` ends by its exit (an empty read), not by its fuel, and every read on the way is good -/
+def lenOk : Nat → SStr → Bool
+  | 0, _ => false
+  | k + 1, s =>
+    goodRead s (some s.chunk) &&
+      ((s.read (some s.chunk)).1.isEmpty || lenOk k (s.read (some s.chunk)).2)
+
+/-- THE READING LOOP of `len`: with at least the model's fuel the generated loop ends normally in an object standing
+    for `SStr.lenLoop`, with the same running total; the saved position (`loc1`) is not touched -/
+theorem ss_len_sim (k : Nat) : ∀ (n : Nat) (s0 : SpooledStringIO.len.St) (s : SStr) (total : Nat),
+    RelS s0.self s → s0.loc2 = (total : Int) → lenOk k s = true → k ≤ n →
+    ∃ s', whileLoop SpooledStringIO.len.loop1.cond SpooledStringIO.len.loop1.body n s0 = (.next, s') ∧
+      RelS s'.self (SStr.lenLoop k s total).2 ∧ s'.loc2 = ((SStr.lenLoop k s total).1 : Int) ∧ s'.loc1 = s0.loc1 := by
+  induction k with
+  | zero => intro n s0 s total _ _ hok; simp [lenOk] at hok
+  | succ k ih =>
+    intro n s0 s total hr htot hok hn
+    obtain ⟨n, rfl⟩ : ∃ n', n = n' + 1 := ⟨n - 1, by omega⟩
+    have hch := hr.chunk
+    rw [whileLoop_succ]
+    have hc : SpooledStringIO.len.loop1.cond s0 = true := by simp [SpooledStringIO.len.loop1.cond]
+    rw [hc, if_pos rfl]
+    unfold lenOk at hok
+    unfold SStr.lenLoop
+    simp only [Bool.and_eq_true, Bool.or_eq_true] at hok
+    have hsz : sizeOf s0.self.chunk = some s.chunk := by rw [hch]; simp [sizeOf]
+    have hrd := src_ss_read_eq_model s0.self s _ hr (by rw [hsz]; exact hok.1)
+    rw [hsz] at hrd
+    rcases hread : SpooledStringIO.read s0.self s0.self.chunk with ⟨r, st1⟩
+    rw [hread] at hrd
+    simp only at hrd
+    by_cases h3 : (s.read (some s.chunk)).1.isEmpty = true
+    · rw [if_pos h3]
+      have h3' : (s.read (some s.chunk)).1 = [] := by simpa using h3
+      refine ⟨{ s0 with self := st1, loc3 := (s.read (some s.chunk)).1 }, ?_, hrd.2, htot, rfl⟩
+      simp [SpooledStringIO.len.loop1.body, hread, hrd.1, h3', PyRt.len]
+    · rw [if_neg h3]
+      have h3' : (s.read (some s.chunk)).1 ≠ [] := by simpa using h3
+      have hok2 : lenOk k (s.read (some s.chunk)).2 = true := by
+        rcases hok.2 with h | h
+        · exact absurd h h3
+        · exact h
+      obtain ⟨s', hs', hrel', ht', hl'⟩ := ih n
+        { s0 with self := st1, loc3 := (s.read (some s.chunk)).1,
+                  loc2 := s0.loc2 + PyRt.len (s.read (some s.chunk)).1 }
+        (s.read (some s.chunk)).2 (total + (s.read (some s.chunk)).1.length) hrd.2
+        (by simp [htot, PyRt.len]) hok2 (by omega)
+      refine ⟨s', ?_, hrel', ht', hl'⟩
+      rw [← hs']
+      simp [SpooledStringIO.len.loop1.body, hread, hrd.1, h3', PyRt.len]
+
+theorem ss_len_sim_of_eq (k n : Nat) (s0 s1 : SpooledStringIO.len.St) (fl : Flow Int) (s : SStr) (total : Nat)
+    (heq : whileLoop SpooledStringIO.len.loop1.cond SpooledStringIO.len.loop1.body n s0 = (fl, s1))
+    (hr : RelS s0.self s) (htot : s0.loc2 = (total : Int)) (hok : lenOk k s = true) (hk : k ≤ n) :
+    fl = .next ∧ RelS s1.self (SStr.lenLoop k s total).2 ∧ s1.loc2 = ((SStr.lenLoop k s total).1 : Int) ∧
+      s1.loc1 = s0.loc1 := by
+  obtain ⟨s', hs', hrel, ht, hl⟩ := ss_len_sim k n s0 s total hr htot hok hk
+  rw [hs'] at heq
+  cases heq
+  exact ⟨rfl, hrel, ht, hl⟩
+
+/-- what `len` needs of the model state: the reading loop from the start ends by an empty read with good reads, and
+    the code-point seek back to `_tell` is a good traversal -/
+def lenAllOk (s : SStr) : Bool :=
+  lenOk (s.st.data.length + 2) (s.bseek 0) &&
+    travOk (s.tell + 1) ((SStr.lenLoop (s.st.data.length + 2) (s.bseek 0) 0).2.bseek 0) 0 s.tell
+
+/-- the `len` property: `SStr.len` — the number of code points, the code-point position saved and restored by `seek` -/
+theorem src_ss_len_eq_model (lfuel : Nat) (st : SS) (s : SStr) (h : RelS st s) (hok : lenAllOk s = true)
+    (hk : s.st.data.length + 2 ≤ lfuel) (hk2 : s.tell + 1 ≤ lfuel) :
+    (SpooledStringIO.len lfuel st).1 = .ok (s.len.1 : Int) ∧ RelS (SpooledStringIO.len lfuel st).2 s.len.2 := by
+  simp only [lenAllOk, Bool.and_eq_true] at hok
+  rcases st with ⟨⟨bst, brd, bcl, brl⟩, tl, ms, dir, ch⟩
+  have hcl : bcl = false := h.opened
+  subst hcl
+  have htl : tl = (s.tell : Int) := h.tell
+  have hb : RelS { buffer := ⟨bst.seek 0, Reader.reset, false, brl⟩, tell := tl, max_size := ms, dir := dir, chunk := ch }
+      (s.bseek 0) := h.bseek0
+  simp only [SpooledStringIO.len, SpooledStringIO.len.body, seq_apply, bindE_apply, assign_apply, skip_apply, ret_apply,
+    src_ss_tell_eq_model, CFile.seek, Bool.false_eq_true, if_false, Int.lt_irrefl, Int.toNat_zero]
+  split
+  · rename_i x s1 heq
+    obtain ⟨_, hrel, ht, hl⟩ := ss_len_sim_of_eq (s.st.data.length + 2) lfuel _ _ _ (s.bseek 0) 0 heq
+      (by simpa using hb) (by simp) hok.1 hk
+    simp only at hl
+    have hsk := src_ss_seek0_eq_model lfuel s1.self _ s.tell hrel hok.2 hk2
+    rw [hl, htl]
+    rcases hseek : SpooledStringIO.seek0 lfuel s1.self (s.tell : Int) with ⟨r, st2⟩
+    rw [hseek] at hsk
+    simp only at hsk
+    rw [hsk.1]
+    exact ⟨by simp [ht, SStr.len], by simpa [SStr.len] using hsk.2⟩
+  · rename_i x fl s1 hne heq
+    obtain ⟨hfl, _, _⟩ := ss_len_sim_of_eq (s.st.data.length + 2) lfuel _ _ _ (s.bseek 0) 0 heq
+      (by simpa using hb) (by simp) hok.1 hk
+    exact absurd hfl hne
+
+/-- non-vacuity: the hypotheses of the `len` tie hold of an object holding multi-byte text, read in chunks of 2 code points -/
+def demoModS : SStr := ⟨⟨encode ['a', 'é'], 3⟩, {}, 2, false, 100, 2⟩
+def demoSrcS : SS :=
+  { buffer := ⟨⟨encode ['a', 'é'], 3⟩, {}, false, false⟩, tell := 2, max_size := 100, dir := (), chunk := 2 }
+example : RelS demoSrcS demoModS ∧ lenAllOk demoModS = true := ⟨⟨rfl, rfl, rfl, rfl, rfl, rfl, rfl⟩, by decide⟩
+
+/-- `seek(p, os.SEEK_SET)` of the full method (the `mode` dispatch): `SStr.seek` -/
+theorem src_ss_seek_set_eq_model (lfuel : Nat) (st : SS) (s : SStr) (p : Nat) (h : RelS st s)
+    (hok : travOk (p + 1) (s.bseek 0) 0 p = true) (hk : p + 1 ≤ lfuel) :
+    (SpooledStringIO.seek lfuel st p 0).1 = .ok (p : Int) ∧ RelS (SpooledStringIO.seek lfuel st p 0).2 (s.seek p) := by
+  rcases st with ⟨⟨bst, brd, bcl, brl⟩, tl, ms, dir, ch⟩
+  have hcl : bcl = false := h.opened
+  subst hcl
+  have hb : RelS { buffer := ⟨bst.seek 0, Reader.reset, false, brl⟩, tell := tl, max_size := ms, dir := dir, chunk := ch }
+      (s.bseek 0) := h.bseek0
+  have ht := src_ss_traverse_eq_model lfuel (p + 1) _ (s.bseek 0) 0 p hb (by simpa using hok) hk
+  simp only [Nat.zero_add] at ht
+  rcases htr : SpooledStringIO.traverse lfuel
+      { buffer := ⟨bst.seek 0, Reader.reset, false, brl⟩, tell := tl, max_size := ms, dir := dir, chunk := ch }
+      ((0 : Nat) : Int) (p : Int) with ⟨r, st1⟩
+  rw [htr] at ht
+  simp only at ht
+  have hc1 : st1.buffer.closed = false := ht.2.opened
+  have hrel := ht.2
+  have ht0 : ((0 : Nat) : Int) = 0 := rfl
+  rw [ht0] at htr
+  refine ⟨?_, ?_⟩
+  · simp [SpooledStringIO.seek, SpooledStringIO.seek.body, src_ss_checkClosed_eq_model, CFile.seek,
+      htr, ht.1, src_ss_tell_eq_model, hc1]
+  · constructor <;>
+      simp [SpooledStringIO.seek, SpooledStringIO.seek.body, src_ss_checkClosed_eq_model, CFile.seek,
+        htr, ht.1, src_ss_tell_eq_model, hc1, SStr.seek, hrel.stream, hrel.reader, hrel.real, hrel.max, hrel.chunk]
+
+/-- `seek(n, os.SEEK_CUR)`: traverse `n` code points from `_tell` on, no rewind — `SStr.seekCur`; returns `_tell + n` -/
+theorem src_ss_seek_cur_eq_model (lfuel : Nat) (st : SS) (s : SStr) (n : Nat) (h : RelS st s)
+    (hok : travOk (n + 1) s s.tell (s.tell + n) = true) (hk : n + 1 ≤ lfuel) :
+    (SpooledStringIO.seek lfuel st n 1).1 = .ok ((s.tell + n : Nat) : Int) ∧
+      RelS (SpooledStringIO.seek lfuel st n 1).2 (s.seekCur n) := by
+  rcases st with ⟨⟨bst, brd, bcl, brl⟩, tl, ms, dir, ch⟩
+  have hcl : bcl = false := h.opened
+  subst hcl
+  have htl : tl = (s.tell : Int) := h.tell
+  subst htl
+  have ht := src_ss_traverse_eq_model lfuel (n + 1) _ s s.tell n h hok hk
+  rcases htr : SpooledStringIO.traverse lfuel
+      { buffer := ⟨bst, brd, false, brl⟩, tell := (s.tell : Int), max_size := ms, dir := dir, chunk := ch }
+      (s.tell : Int) (n : Int) with ⟨r, st1⟩
+  rw [htr] at ht
+  simp only at ht
+  have hc1 : st1.buffer.closed = false := ht.2.opened
+  have hrel := ht.2
+  refine ⟨?_, ?_⟩
+  · simp [SpooledStringIO.seek, SpooledStringIO.seek.body, src_ss_checkClosed_eq_model,
+      htr, ht.1, src_ss_tell_eq_model, hc1] <;> try omega
+  · constructor <;>
+      simp [SpooledStringIO.seek, SpooledStringIO.seek.body, src_ss_checkClosed_eq_model,
+        htr, ht.1, src_ss_tell_eq_model, hc1, SStr.seekCur, hrel.stream, hrel.reader, hrel.real, hrel.max, hrel.chunk] <;>
+      try omega
+
+/-- `seek(n, os.SEEK_END)` with `n ≤ len`: the `len` property, a rewind, a traversal of `len - n` code points —
+    `SStr.seekEnd`; returns `len - n` -/
+theorem src_ss_seek_end_eq_model (lfuel : Nat) (st : SS) (s : SStr) (n : Nat) (h : RelS st s)
+    (hlen : lenAllOk s = true) (hn : n ≤ s.len.1)
+    (hok : travOk (s.len.1 - n + 1) (s.len.2.bseek 0) 0 (s.len.1 - n) = true)
+    (hk : s.st.data.length + 2 ≤ lfuel) (hk2 : s.tell + 1 ≤ lfuel) (hk3 : s.len.1 - n + 1 ≤ lfuel) :
+    (SpooledStringIO.seek lfuel st n 2).1 = .ok ((s.len.1 - n : Nat) : Int) ∧
+      RelS (SpooledStringIO.seek lfuel st n 2).2 (s.seekEnd n) := by
+  have hcl : st.buffer.closed = false := h.opened
+  have hl := src_ss_len_eq_model lfuel st s h hlen hk hk2
+  rcases hlr : SpooledStringIO.len lfuel st with ⟨r0, st0⟩
+  rw [hlr] at hl
+  simp only at hl
+  obtain ⟨hl1, hl2⟩ := hl
+  subst hl1
+  rcases st0 with ⟨⟨bst, brd, bcl, brl⟩, tl, ms, dir, ch⟩
+  have hcl0 : bcl = false := hl2.opened
+  subst hcl0
+  have hb : RelS { buffer := ⟨bst.seek 0, Reader.reset, false, brl⟩, tell := tl, max_size := ms, dir := dir, chunk := ch }
+      (s.len.2.bseek 0) := hl2.bseek0
+  have ht := src_ss_traverse_eq_model lfuel (s.len.1 - n + 1) _ (s.len.2.bseek 0) 0 (s.len.1 - n) hb
+    (by simpa using hok) hk3
+  simp only [Nat.zero_add] at ht
+  have harg : ((s.len.1 : Int) - (n : Int)) = ((s.len.1 - n : Nat) : Int) := by omega
+  rcases htr : SpooledStringIO.traverse lfuel
+      { buffer := ⟨bst.seek 0, Reader.reset, false, brl⟩, tell := tl, max_size := ms, dir := dir, chunk := ch }
+      ((0 : Nat) : Int) ((s.len.1 - n : Nat) : Int) with ⟨r, st1⟩
+  rw [htr] at ht
+  simp only at ht
+  have hc1 : st1.buffer.closed = false := ht.2.opened
+  have hrel := ht.2
+  have ht0 : ((0 : Nat) : Int) = 0 := rfl
+  rw [ht0] at htr
+  refine ⟨?_, ?_⟩
+  · simp [SpooledStringIO.seek, SpooledStringIO.seek.body, ss_checkClosed_open _ _ hcl, hlr, harg, CFile.seek,
+      htr, ht.1, src_ss_tell_eq_model, hc1]
+  · constructor <;>
+      simp [SpooledStringIO.seek, SpooledStringIO.seek.body, ss_checkClosed_open _ _ hcl, hlr, harg, CFile.seek,
+        htr, ht.1, src_ss_tell_eq_model, hc1, SStr.seekEnd, hrel.stream, hrel.reader, hrel.real, hrel.max, hrel.chunk]
+
+/-- non-vacuity: the hypotheses of the three `seek` ties hold of an object holding multi-byte text (one code point
+    forward from the start; one code point back from the end) -/
+def demoModS0 : SStr := ⟨⟨encode ['a', 'é'], 0⟩, {}, 0, false, 100, 2⟩
+example : travOk 2 (demoModS0.bseek 0) 0 1 = true ∧ travOk 2 demoModS0 demoModS0.tell (demoModS0.tell + 1) = true := by decide
+example : lenAllOk demoModS = true ∧ 1 ≤ demoModS.len.1 ∧
+    travOk (demoModS.len.1 - 1 + 1) (demoModS.len.2.bseek 0) 0 (demoModS.len.1 - 1) = true := by decide
+
+/-- the codec's `readline` does not hit a decoding error -/
+def goodLine (s : SStr) : Bool := !(s.rd.readline s.st).2.2.bad
+
+/-- one `self.buffer.readline().decode('utf-8')` on an object standing for `s`: `SStr.codecLine` -/
+theorem ss_codecLine_eq_model (st : SS) (s : SStr) (h : RelS st s) (hg : goodLine s = true) :
+    (CFile.readlineText st.buffer none).1 = .ok s.codecLine.1 ∧
+      RelS { st with buffer := (CFile.readlineText st.buffer none).2 } s.codecLine.2 := by
+  obtain ⟨h1, h2, h3, h4, h5, h6, h7⟩ := h
+  rcases st with ⟨⟨bst, brd, bcl, brl⟩, tl, ms, dir, ch⟩
+  simp only at h1 h2 h3 h4 h5 h6 h7
+  subst h1 h2 h3 h4 h5 h6 h7
+  simp only [goodLine, Bool.not_eq_true'] at hg
+  refine ⟨?_, ?_⟩
+  · simp [CFile.readlineText, hg, SStr.codecLine]
+  · constructor <;> simp [CFile.readlineText, hg, SStr.codecLine]
+
+/-- the loop test `ret and ret[-1] not in '\r\n'` is the negation of the model's exit test -/
+theorem ss_rl_cond (s0 : SpooledStringIO.readline.St) (h : s0.length = none) :
+    SpooledStringIO.readline.loop1.cond s0 = !(s0.loc1.isEmpty || endsCRLF s0.loc1) := by
+  unfold SpooledStringIO.readline.loop1.cond lastNotIn endsCRLF
+  rcases hl : s0.loc1.getLast? with _ | c
+  · have : s0.loc1 = [] := List.getLast?_eq_none_iff.mp hl
+    simp [h, this]
+  · have hne : s0.loc1 ≠ [] := by intro h0; simp [h0] at hl
+    have hne' : s0.loc1.isEmpty = false := by simpa using hne
+    simp [h, hne, hne']
+
+/-- the model's `rlJoin` ends by one of its exits (not by its fuel) and every codec line on the way is good -/
+def rlOk : Nat → List Char → SStr → Bool
+  | 0, _, _ => false
+  | k + 1, ret, s =>
+    if ret.isEmpty || endsCRLF ret then true
+    else goodLine s && (s.codecLine.1.isEmpty || rlOk k (ret ++ s.codecLine.1) s.codecLine.2)
+
+/-- THE JOINING LOOP of `readline`: with at least the model's fuel the generated loop ends normally in an object
+    standing for `SStr.rlJoin`, with the same line -/
+theorem ss_rl_sim (k : Nat) : ∀ (n : Nat) (s0 : SpooledStringIO.readline.St) (s : SStr) (ret : List Char),
+    RelS s0.self s → s0.length = none → s0.loc1 = ret → rlOk k ret s = true → k ≤ n →
+    ∃ s', whileLoop SpooledStringIO.readline.loop1.cond SpooledStringIO.readline.loop1.body n s0 = (.next, s') ∧
+      RelS s'.self (SStr.rlJoin k ret s).2 ∧ s'.loc1 = (SStr.rlJoin k ret s).1 := by
+  induction k with
+  | zero => intro n s0 s ret _ _ _ hok; simp [rlOk] at hok
+  | succ k ih =>
+    intro n s0 s ret hr hlen hret hok hn
+    obtain ⟨n, rfl⟩ : ∃ n', n = n' + 1 := ⟨n - 1, by omega⟩
+    rw [whileLoop_succ, ss_rl_cond s0 hlen, hret]
+    unfold rlOk at hok
+    unfold SStr.rlJoin
+    by_cases h1 : (ret.isEmpty || endsCRLF ret) = true
+    · rw [if_pos h1]
+      refine ⟨s0, ?_, hr, hret⟩
+      simp [h1]
+    · rw [if_neg h1] at hok ⊢
+      have h1' : (!(ret.isEmpty || endsCRLF ret)) = true := by simpa using h1
+      rw [h1', if_pos rfl]
+      simp only [Bool.and_eq_true, Bool.or_eq_true] at hok
+      have hcl := ss_codecLine_eq_model s0.self s hr hok.1
+      rcases hline : CFile.readlineText s0.self.buffer none with ⟨r, b1⟩
+      rw [hline] at hcl
+      simp only at hcl
+      by_cases h3 : s.codecLine.1.isEmpty = true
+      · rw [if_pos h3]
+        have h3' : s.codecLine.1 = [] := by simpa using h3
+        refine ⟨{ s0 with self := { s0.self with buffer := b1 }, loc2 := s.codecLine.1 }, ?_, hcl.2, hret⟩
+        simp [SpooledStringIO.readline.loop1.body, hline, hcl.1, h3']
+      · rw [if_neg h3]
+        have h3' : s.codecLine.1 ≠ [] := by simpa using h3
+        have hok2 : rlOk k (ret ++ s.codecLine.1) s.codecLine.2 = true := by
+          rcases hok.2 with h | h
+          · exact absurd h h3
+          · exact h
+        obtain ⟨s', hs', hrel', hl'⟩ := ih n
+          { s0 with self := { s0.self with buffer := b1 }, loc2 := s.codecLine.1, loc1 := s0.loc1 ++ s.codecLine.1 }
+          s.codecLine.2 (ret ++ s.codecLine.1) hcl.2 hlen (by simp [hret]) hok2 (by omega)
+        refine ⟨s', ?_, hrel', hl'⟩
+        rw [← hs']
+        simp [SpooledStringIO.readline.loop1.body, hline, hcl.1, h3']
+
+theorem ss_rl_sim_of_eq (k n : Nat) (s0 s1 : SpooledStringIO.readline.St) (fl : Flow (List Char)) (s : SStr)
+    (ret : List Char)
+    (heq : whileLoop SpooledStringIO.readline.loop1.cond SpooledStringIO.readline.loop1.body n s0 = (fl, s1))
+    (hr : RelS s0.self s) (hlen : s0.length = none) (hret : s0.loc1 = ret) (hok : rlOk k ret s = true) (hk : k ≤ n) :
+    fl = .next ∧ RelS s1.self (SStr.rlJoin k ret s).2 ∧ s1.loc1 = (SStr.rlJoin k ret s).1 := by
+  obtain ⟨s', hs', hrel, hl⟩ := ss_rl_sim k n s0 s ret hr hlen hret hok hk
+  rw [hs'] at heq
+  cases heq
+  exact ⟨rfl, hrel, hl⟩
+
+theorem SStr.rlJoin_tell (k : Nat) : ∀ (ret : List Char) (s : SStr), (SStr.rlJoin k ret s).2.tell = s.tell := by
+  induction k with
+  | zero => intro ret s; rfl
+  | succ k ih =>
+    intro ret s
+    unfold SStr.rlJoin
+    split
+    · rfl
+    · split
+      · rfl
+      · rw [ih]; rfl
+
+/-- what `readline()` needs of the model state: the first codec line is good and the joining loop ends by an exit -/
+def rlAllOk (s : SStr) : Bool :=
+  goodLine s && rlOk (s.st.data.length + 2) s.codecLine.1 s.codecLine.2
+
+/-- `readline()` (no length): `SStr.readline` — codec lines joined until one ends in CR / LF, `_tell` advanced by the
+    number of code points returned -/
+theorem src_ss_readline_eq_model (lfuel : Nat) (st : SS) (s : SStr) (h : RelS st s) (hok : rlAllOk s = true)
+    (hk : s.st.data.length + 2 ≤ lfuel) :
+    (SpooledStringIO.readline lfuel st none).1 = .ok s.readline.1 ∧
+      RelS (SpooledStringIO.readline lfuel st none).2 s.readline.2 := by
+  simp only [rlAllOk, Bool.and_eq_true] at hok
+  have hcl := ss_codecLine_eq_model st s h hok.1
+  rcases hline : CFile.readlineText st.buffer none with ⟨r, b1⟩
+  rw [hline] at hcl
+  simp only at hcl
+  obtain ⟨hcl1, hcl2⟩ := hcl
+  subst hcl1
+  simp only [SpooledStringIO.readline, SpooledStringIO.readline.body, seq_apply, bindE_apply, assign_apply, skip_apply,
+    ret_apply, ss_checkClosed_open _ _ h.opened, hline]
+  split
+  · rename_i x s1 heq
+    obtain ⟨_, hrel, hl⟩ := ss_rl_sim_of_eq (s.st.data.length + 2) lfuel _ _ _ s.codecLine.2 s.codecLine.1 heq
+      (by simpa using hcl2) rfl rfl hok.2 hk
+    have hc1 : s1.self.buffer.closed = false := hrel.opened
+    refine ⟨?_, ?_⟩
+    · simp [src_ss_tell_eq_model, hc1, hl, SStr.readline]
+    · constructor <;>
+        simp [src_ss_tell_eq_model, hc1, hl, SStr.readline, hrel.stream, hrel.reader, hrel.real, hrel.max, hrel.chunk,
+          hrel.tell, PyRt.len, SStr.rlJoin_tell, SStr.codecLine]
+  · rename_i x fl s1 hne heq
+    obtain ⟨hfl, _, _⟩ := ss_rl_sim_of_eq (s.st.data.length + 2) lfuel _ _ _ s.codecLine.2 s.codecLine.1 heq
+      (by simpa using hcl2) rfl rfl hok.2 hk
+    exact absurd hfl hne
+
+/-- non-vacuity: the hypotheses of the `readline` tie hold where the codec ends a line at a form feed and the loop joins
+    the next codec line (up to the LF) to it -/
+def demoModL : SStr := ⟨⟨encode ['é', Char.ofNat 12, 'b', Char.ofNat 10, 'c'], 0⟩, {}, 0, false, 100, 2⟩
+example : rlAllOk demoModL = true ∧ demoModL.readline.1 = ['é', Char.ofNat 12, 'b', Char.ofNat 10] := by decide
+
+/-- the model's object right after the content moved to the temporary file, before the position is re-established -/
+def SStr.moved (s : SStr) : SStr :=
+  { s with st := (File.empty : File CU).write s.st.data, rd := Reader.reset, rolled := true }
+
+theorem SStr.rollover_unrolled (s : SStr) (h : s.rolled = false) : s.rollover = s.moved.seek s.tell := by
+  simp [SStr.rollover, h, SStr.moved]
+
+/-- what `rollover()` needs of the model state: the code-point seek back to `_tell` in the new file is a good traversal -/
+def rollOk (s : SStr) : Bool := s.rolled || travOk (s.tell + 1) (s.moved.bseek 0) 0 s.tell
+
+theorem CFile_write_newReal (b : List CU) :
+    CFile.write CFile.newReal b = (.ok (), ⟨(File.empty : File CU).write b, {}, false, true⟩) := by
+  cases b <;> simp [CFile.write, CFile.newReal, File.write, File.empty]
+
+/-- `rollover()`: `SStr.rollover` — nothing on a temporary file; else the bytes go to a new codec file over a temporary
+    file, the old one is closed, and the position is re-established by a code-point `seek(_tell)` -/
+theorem src_ss_rollover_eq_model (lfuel : Nat) (st : SS) (s : SStr) (h : RelS st s) (hok : rollOk s = true)
+    (hk : s.tell + 1 ≤ lfuel) :
+    (SpooledStringIO.rollover lfuel st).1 = .ok () ∧ RelS (SpooledStringIO.rollover lfuel st).2 s.rollover := by
+  by_cases hr : s.rolled = true
+  · have hreal : st.buffer.real = true := by rw [h.real]; exact hr
+    rw [src_ss_rollover_rolled lfuel st hreal]
+    have : s.rollover = s := by simp [SStr.rollover, hr]
+    rw [this]
+    exact ⟨rfl, h⟩
+  · have hr' : s.rolled = false := by simpa using hr
+    simp only [rollOk, hr', Bool.false_or] at hok
+    rw [SStr.rollover_unrolled s hr']
+    obtain ⟨h1, h2, h3, h4, h5, h6, h7⟩ := h
+    rcases st with ⟨⟨bst, brd, bcl, brl⟩, tl, ms, dir, ch⟩
+    simp only at h1 h2 h3 h4 h5 h6 h7
+    subst h1 h2 h3 h5 h6 h7
+    rw [hr'] at h4
+    subst h4
+    have hm : RelS (⟨⟨(File.empty : File CU).write s.st.data, {}, false, true⟩, (s.tell : Int), (s.maxSize : Int), dir,
+        (s.chunk : Int)⟩ : SS) s.moved := ⟨rfl, rfl, rfl, rfl, rfl, rfl, rfl⟩
+    have hsk := src_ss_seek0_eq_model lfuel _ s.moved s.tell hm hok hk
+    rcases hseek : SpooledStringIO.seek0 lfuel (⟨⟨(File.empty : File CU).write s.st.data, {}, false, true⟩, (s.tell : Int),
+        (s.maxSize : Int), dir, (s.chunk : Int)⟩ : SS) (s.tell : Int) with ⟨r, st2⟩
+    rw [hseek] at hsk
+    simp only at hsk
+    simp [SpooledStringIO.rollover, SpooledStringIO.rollover.body, src_ss_rolled_eq_model, CFile.getvalue,
+      CFile_write_newReal, CFile.close, hseek, hsk.1, hsk.2]
+
+theorem File_write_nil_cu (f : File CU) (h : InRange f) : f.write [] = f := by
+  unfold InRange at h
+  cases f with
+  | mk d p => simp only [File.write, List.append_nil, List.length_nil, Nat.add_zero] at *
+              rw [Nat.sub_eq_zero_of_le h]; simp
+
+/-- `buffer.write(bytes)` on an open codec file whose stream position is inside the data: the model's `File.write` -/
+theorem CFile_write_inRange (o : CFile) (b : List CU) (hc : o.closed = false) (hin : InRange o.st) :
+    CFile.write o b = (.ok (), { o with st := o.st.write b }) := by
+  rcases o with ⟨ost, ord, ocl, orl⟩
+  simp only at hc hin
+  subst hc
+  unfold CFile.write
+  by_cases hb : b = []
+  · subst hb
+    simp [File_write_nil_cu _ hin]
+  · have hb' : b.isEmpty = false := by simpa using hb
+    have hlt : ¬ (ost.data.length < ost.pos) := by unfold InRange at hin; omega
+    simp [hb', hlt]
+
+/-- what `write(cs)` needs of the model state: if the write rolls the object over, the rollover's seek is a good
+    traversal; the stream position the bytes go to is inside the data (the statement's domain: appending writes) -/
+def writeOk (s : SStr) (cs : List Char) : Prop :=
+  if s.st.pos + (encode cs).length ≥ s.maxSize then rollOk s = true ∧ InRange s.rollover.st else InRange s.st
+
+/-- `write(cs)`: `SStr.write` — the rollover decision `buffer.tell() + len(cs.encode('utf-8')) >= max_size`, then the
+    bytes go to the stream and `_tell` advances by the number of code points -/
+theorem src_ss_write_eq_model (lfuel : Nat) (st : SS) (s : SStr) (cs : List Char) (h : RelS st s)
+    (hok : writeOk s cs) (hk : s.tell + 1 ≤ lfuel) :
+    (SpooledStringIO.write lfuel st cs).1 = .ok () ∧ RelS (SpooledStringIO.write lfuel st cs).2 (s.write cs) := by
+  unfold writeOk at hok
+  by_cases hd : s.st.pos + (encode cs).length ≥ s.maxSize
+  · rw [if_pos hd] at hok
+    have hro := src_ss_rollover_eq_model lfuel st s h hok.1 hk
+    rcases hroll : SpooledStringIO.rollover lfuel st with ⟨r, st1⟩
+    rw [hroll] at hro
+    simp only at hro
+    obtain ⟨hro1, hro2⟩ := hro
+    subst hro1
+    have hw := CFile_write_inRange st1.buffer (encode cs) hro2.opened (by rw [hro2.stream]; exact hok.2)
+    obtain ⟨h1, h2, h3, h4, h5, h6, h7⟩ := h
+    rcases st with ⟨⟨bst, brd, bcl, brl⟩, tl, ms, dir, ch⟩
+    simp only at h1 h2 h3 h4 h5 h6 h7
+    subst h1 h2 h3 h4 h5 h6 h7
+    have hdI : (s.maxSize : Int) ≤ (s.st.pos : Int) + ((encode cs).length : Int) := by omega
+    refine ⟨?_, ?_⟩
+    · simp [SpooledStringIO.write, SpooledStringIO.write.body, src_ss_checkClosed_eq_model, src_ss_tell_eq_model,
+        CFile.tell, hdI, hroll, hw, PyRt.len]
+    · constructor <;>
+        simp [SpooledStringIO.write, SpooledStringIO.write.body, src_ss_checkClosed_eq_model, src_ss_tell_eq_model,
+          CFile.tell, hdI, hroll, hw, SStr.write, hd, hro2.stream, hro2.reader, hro2.real, hro2.max, hro2.chunk,
+          hro2.opened, PyRt.len]
+  · rw [if_neg hd] at hok
+    have hw := CFile_write_inRange st.buffer (encode cs) h.opened (by rw [h.stream]; exact hok)
+    obtain ⟨h1, h2, h3, h4, h5, h6, h7⟩ := h
+    rcases st with ⟨⟨bst, brd, bcl, brl⟩, tl, ms, dir, ch⟩
+    simp only at h1 h2 h3 h4 h5 h6 h7
+    subst h1 h2 h3 h4 h5 h6 h7
+    have hdI : ¬ ((s.maxSize : Int) ≤ (s.st.pos : Int) + ((encode cs).length : Int)) := by omega
+    simp only at hw
+    refine ⟨?_, ?_⟩
+    · simp [SpooledStringIO.write, SpooledStringIO.write.body, src_ss_checkClosed_eq_model, src_ss_tell_eq_model,
+        CFile.tell, hdI, hw, PyRt.len]
+    · constructor <;>
+        simp [SpooledStringIO.write, SpooledStringIO.write.body, src_ss_checkClosed_eq_model, src_ss_tell_eq_model,
+          CFile.tell, hdI, hw, SStr.write, hd, PyRt.len]
+
+/-- non-vacuity: the hypotheses of the `rollover` / `write` ties hold of an object holding multi-byte text, for a write
+    that stays in memory (`max_size` 100) and for one that rolls the object over (`max_size` 4) -/
+def demoModW : SStr := ⟨⟨encode ['a', 'é'], 3⟩, {}, 2, false, 4, 2⟩
+example : rollOk demoModS = true ∧ (demoModS.rollover).rolled = true := by decide
+example : writeOk demoModS ['b'] ∧ writeOk demoModW ['b'] ∧ (demoModW.write ['b']).rolled = true ∧
+    (demoModS.write ['b']).rolled = false := by
+  unfold writeOk InRange; decide
+
+/-! ## 6. the `…Ok` hypotheses of the SpooledStringIO ties hold in every COHERENT model state (`CohAt` / `Coh`, the
+invariant of `C18/Text.lean`): no read of a coherent object hits a decoding error and every model loop ends by its exit -/
+
+theorem goodRead_of_coh (s : SStr) (text : List Char) (a : Nat) (h : CohAt s text a) (size : Option Nat) :
+    goodRead s size = true := by
+  obtain ⟨X, p, hrc, _⟩ := (SStr.read_spec s text a h size).2.1.rc
+  have hg : (s.read size).2.rd.bad = false := hrc.good
+  simp only [goodRead, Bool.not_eq_true']
+  exact hg
+
+theorem goodLine_of_coh (s : SStr) (text : List Char) (a : Nat) (h : CohAt s text a) : goodLine s = true := by
+  obtain ⟨X, p, hrc, _⟩ := (SStr.codecLine_spec s text a h).2.1.rc
+  have hg : s.codecLine.2.rd.bad = false := hrc.good
+  simp only [goodLine, Bool.not_eq_true']
+  exact hg
+
+theorem travOk_of_coh (fuel : Nat) (s : SStr) (text : List Char) (cur dest : Nat)
+    (h : CohAt s text cur) (hd : dest ≤ text.length) (hc : cur ≤ dest) (hch : 0 < s.chunk)
+    (hf : dest - cur + 1 ≤ fuel) : travOk fuel s cur dest = true := by
+  induction fuel generalizing s cur with
+  | zero => omega
+  | succ fuel ih =>
+    unfold travOk
+    by_cases h1 : cur = dest
+    · rw [if_pos h1]
+    · rw [if_neg h1]
+      by_cases h2 : cur + s.chunk > dest
+      · rw [if_pos h2]; exact goodRead_of_coh s text cur h _
+      · rw [if_neg h2]
+        have hr := SStr.read_spec s text cur h (some s.chunk)
+        have hl := SStr.read_some_len s text cur s.chunk h (by omega)
+        rw [hl] at hr
+        have := ih (s.read (some s.chunk)).2 (cur + s.chunk) hr.2.1 (by omega) (by rw [hr.2.2.2]; exact hch) (by omega)
+        simp [goodRead_of_coh s text cur h, this]
+
+theorem lenOk_of_coh (fuel : Nat) (s : SStr) (text : List Char) (cur : Nat)
+    (h : CohAt s text cur) (hch : 0 < s.chunk) (hf : text.length - cur + 1 ≤ fuel) : lenOk fuel s = true := by
+  induction fuel generalizing s cur with
+  | zero => omega
+  | succ fuel ih =>
+    unfold lenOk
+    have hr := SStr.read_spec s text cur h (some s.chunk)
+    by_cases he : (s.read (some s.chunk)).1.isEmpty = true
+    · simp [goodRead_of_coh s text cur h, he]
+    · have hpos : 0 < (s.read (some s.chunk)).1.length := by
+        apply List.length_pos_iff.2
+        intro hh; apply he; simp [hh]
+      have hle : cur + (s.read (some s.chunk)).1.length ≤ text.length := hr.2.1.ale
+      have := ih (s.read (some s.chunk)).2 (cur + (s.read (some s.chunk)).1.length) hr.2.1
+        (by rw [hr.2.2.2]; exact hch) (by omega)
+      simp [goodRead_of_coh s text cur h, this]
+
+theorem lenAllOk_of_coh (s : SStr) (text : List Char) (h : Coh s text) (hch : 0 < s.chunk) : lenAllOk s = true := by
+  have h0 := CohAt_bseek0 s text s.tell h
+  have hfuel : text.length - 0 + 1 ≤ s.st.data.length + 2 := by
+    rw [h.data]; have := length_le_blen text; simp only [blen] at this; omega
+  have hl := SStr.lenLoop_spec (s.st.data.length + 2) (s.bseek 0) text 0 0 h0 hch hfuel
+  have h1 := lenOk_of_coh (s.st.data.length + 2) (s.bseek 0) text 0 h0 hch hfuel
+  have h2 := travOk_of_coh (s.tell + 1) ((SStr.lenLoop (s.st.data.length + 2) (s.bseek 0) 0).2.bseek 0) text 0 s.tell
+    (CohAt_bseek0 _ text text.length hl.2.1) h.ale (Nat.zero_le _)
+    (by show 0 < (SStr.lenLoop (s.st.data.length + 2) (s.bseek 0) 0).2.chunk; rw [hl.2.2]; exact hch) (by omega)
+  simp [lenAllOk, h1, h2]
+
+theorem rlOk_of_coh (fuel : Nat) (ret : List Char) (s : SStr) (text : List Char) (a : Nat)
+    (h : CohAt s text a) (hf : (text.drop a).length + 1 ≤ fuel) : rlOk fuel ret s = true := by
+  induction fuel generalizing ret s a with
+  | zero => omega
+  | succ fuel ih =>
+    unfold rlOk
+    by_cases h1 : (ret.isEmpty || endsCRLF ret) = true
+    · rw [if_pos h1]
+    · rw [if_neg h1]
+      have hc := SStr.codecLine_spec s text a h
+      by_cases h2 : s.codecLine.1.isEmpty = true
+      · simp [goodLine_of_coh s text a h, h2]
+      · have hne : s.codecLine.1 ≠ [] := fun h0 => h2 (by rw [h0]; rfl)
+        have hpos : 0 < s.codecLine.1.length := List.length_pos_iff.2 hne
+        have hle : s.codecLine.1.length ≤ (text.drop a).length := by
+          rw [hc.1]; exact firstLine_length_le _ _
+        have hdrop : text.drop (a + s.codecLine.1.length) = (text.drop a).drop s.codecLine.1.length := by
+          rw [List.drop_drop]
+        have := ih (ret ++ s.codecLine.1) s.codecLine.2 (a + s.codecLine.1.length) hc.2.1
+          (by rw [hdrop, List.length_drop]; omega)
+        simp [goodLine_of_coh s text a h, this]
+
+theorem rlAllOk_of_coh (s : SStr) (text : List Char) (h : Coh s text) : rlAllOk s = true := by
+  have hc := SStr.codecLine_spec s text s.tell h
+  have hfuel : (text.drop (s.tell + s.codecLine.1.length)).length + 1 ≤ s.st.data.length + 2 := by
+    have hdata : s.st.data.length = blen text := by rw [h.data]; rfl
+    have := length_le_blen text
+    simp only [List.length_drop]; omega
+  have := rlOk_of_coh (s.st.data.length + 2) s.codecLine.1 s.codecLine.2 text _ hc.2.1 hfuel
+  simp [rlAllOk, goodLine_of_coh s text s.tell h, this]
+
+theorem rollOk_of_coh (s : SStr) (text : List Char) (h : Coh s text) (hch : 0 < s.chunk) : rollOk s = true := by
+  unfold rollOk
+  by_cases hr : s.rolled = true
+  · simp [hr]
+  · have h0 : CohAt s.moved text text.length := by
+      refine ⟨?_, ?_, Nat.le_refl _, ⟨[], 0, ⟨?_, rfl, rfl, rfl⟩, ?_⟩, Or.inl rfl⟩
+      · show ((File.empty : File CU).write s.st.data).data = encode text
+        rw [File.write_empty]; exact h.data
+      · show InRange ((File.empty : File CU).write s.st.data)
+        rw [File.write_empty]; simp [InRange]
+      · show ((File.empty : File CU).write s.st.data).rest = _
+        rw [File.write_empty]; simp [File.rest]
+      · simp [pend, Reader.merge, Reader.reset, SStr.moved]
+    have := travOk_of_coh (s.tell + 1) (s.moved.bseek 0) text 0 s.tell (CohAt_bseek0 _ text _ h0) h.ale (Nat.zero_le _)
+      hch (by omega)
+    simp [this]
+
+theorem writeOk_of_coh (s : SStr) (text cs : List Char) (h : Coh s text) (hch : 0 < s.chunk) : writeOk s cs := by
+  unfold writeOk
+  split
+  · exact ⟨rollOk_of_coh s text h hch, (SStr.rollover_spec s text h hch).1.inr⟩
+  · exact h.inr
+
+/-! ## 7. SpooledStringIO: one call, histories, io.StringIO -/
+
+def outOfS {ρ : Type} (g : ρ → Out Char) (r : Except PyExc ρ × SS) : Except PyExc (Out Char) × SS :=
+  (match r.1 with | .ok v => .ok (g v) | .error e => .error e, r.2)
+
+/-- a public call of the model's history language on the GENERATED definitions of `SpooledStringIO` -/
+def srcStepS (lfuel : Nat) (st : SS) : Op Char → Except PyExc (Out Char) × SS
+  | .write cs => outOfS (fun _ => .unit) (SpooledStringIO.write lfuel st cs)
+  | .read n => outOfS .data (SpooledStringIO.read st n)
+  | .readAll => outOfS .data (SpooledStringIO.read st (-1))
+  | .readline => outOfS .data (SpooledStringIO.readline lfuel st none)
+  | .seek p => outOfS (fun v => .num v.toNat) (SpooledStringIO.seek lfuel st p 0)
+  | .seekCur n => outOfS (fun v => .num v.toNat) (SpooledStringIO.seek lfuel st n 1)
+  | .seekEnd n => outOfS (fun v => .num v.toNat) (SpooledStringIO.seek lfuel st n 2)
+  | .tell => outOfS (fun v => .num v.toNat) (SpooledStringIO.tell st)
+  | .len => outOfS (fun v => .num v.toNat) (SpooledStringIO.len lfuel st)
+  | .rollover => outOfS (fun _ => .unit) (SpooledStringIO.rollover lfuel st)
+  | _ => (.error .Other, st)
+
+/-- the calls whose `SpooledStringIO` methods are translated AND tied (not: `readlines`, `getvalue`, iteration,
+    `writelines`, sized `readline`) -/
+def tiedS : Op Char → Bool
+  | .write _ => true
+  | .read _ => true
+  | .readAll => true
+  | .readline => true
+  | .seek _ => true
+  | .seekCur _ => true
+  | .seekEnd _ => true
+  | .tell => true
+  | .len => true
+  | .rollover => true
+  | _ => false
+
+/-- ONE CALL: on an object standing for a coherent model state (which itself stands for the reference text file `f`),
+    a translated call inside the statement's domain (`okS`) with enough loop fuel raises nothing, returns what
+    `SStr.step` returns and ends in an object standing for the model's next state -/
+theorem src_ss_step_eq_model (lfuel : Nat) (st : SS) (s : SStr) (f : File Char) (op : Op Char) (h : RelS st s)
+    (hs : SRel s f) (ht : tiedS op = true) (hok : okS f op = true) (hfuel : s.st.data.length + 2 ≤ lfuel) :
+    (srcStepS lfuel st op).1 = .ok (s.step op).1 ∧ RelS (srcStepS lfuel st op).2 (s.step op).2 := by
+  obtain ⟨hc, hpos, hch⟩ := hs
+  have hdl : f.data.length ≤ s.st.data.length := by rw [hc.data]; exact length_le_blen f.data
+  have hale : s.tell ≤ f.data.length := hc.ale
+  cases op with
+  | write cs =>
+    have := src_ss_write_eq_model lfuel st s cs h (writeOk_of_coh s f.data cs hc hch) (by omega)
+    exact ⟨by simp [srcStepS, outOfS, this.1, SStr.step], this.2⟩
+  | read n =>
+    have hsz : sizeOf ((n : Nat) : Int) = some n := by simp [sizeOf]
+    have := src_ss_read_eq_model st s n h (goodRead_of_coh s f.data s.tell hc _)
+    rw [hsz] at this
+    exact ⟨by simp [srcStepS, outOfS, this.1, SStr.step], this.2⟩
+  | readAll =>
+    have hsz : sizeOf (-1) = none := by simp [sizeOf]
+    have := src_ss_read_eq_model st s (-1) h (goodRead_of_coh s f.data s.tell hc _)
+    rw [hsz] at this
+    exact ⟨by simp [srcStepS, outOfS, this.1, SStr.step], this.2⟩
+  | readline =>
+    have := src_ss_readline_eq_model lfuel st s h (rlAllOk_of_coh s f.data hc) hfuel
+    exact ⟨by simp [srcStepS, outOfS, this.1, SStr.step], this.2⟩
+  | seek p =>
+    simp only [okS, decide_eq_true_eq] at hok
+    have := src_ss_seek_set_eq_model lfuel st s p h
+      (travOk_of_coh (p + 1) (s.bseek 0) f.data 0 p (CohAt_bseek0 s f.data s.tell hc) hok (Nat.zero_le _) hch (by omega))
+      (by omega)
+    exact ⟨by simp [srcStepS, outOfS, this.1, SStr.step], this.2⟩
+  | seekCur n =>
+    simp only [okS, decide_eq_true_eq] at hok
+    have := src_ss_seek_cur_eq_model lfuel st s n h
+      (travOk_of_coh (n + 1) s f.data s.tell (s.tell + n) hc (by omega) (by omega) hch (by omega)) (by omega)
+    exact ⟨by simp [srcStepS, outOfS, this.1, SStr.step]; omega, this.2⟩
+  | seekEnd n =>
+    simp only [okS, decide_eq_true_eq] at hok
+    have hl := SStr.len_spec s f.data hc hch
+    have := src_ss_seek_end_eq_model lfuel st s n h (lenAllOk_of_coh s f.data hc hch) (by rw [hl.1]; exact hok)
+      (travOk_of_coh (s.len.1 - n + 1) (s.len.2.bseek 0) f.data 0 (s.len.1 - n)
+        (CohAt_bseek0 s.len.2 f.data s.tell hl.2.1) (by rw [hl.1]; omega) (Nat.zero_le _)
+        (by show 0 < s.len.2.chunk; rw [hl.2.2.2]; exact hch) (by omega))
+      hfuel (by omega) (by rw [hl.1]; omega)
+    exact ⟨by simp [srcStepS, outOfS, this.1, SStr.step], this.2⟩
+  | tell =>
+    have := src_ss_tell_eq_model st
+    rw [h.opened] at this
+    refine ⟨?_, ?_⟩
+    · simp [srcStepS, outOfS, this, SStr.step, h.tell]
+    · simpa [srcStepS, outOfS, this, SStr.step] using h
+  | len =>
+    have := src_ss_len_eq_model lfuel st s h (lenAllOk_of_coh s f.data hc hch) hfuel (by omega)
+    exact ⟨by simp [srcStepS, outOfS, this.1, SStr.step], this.2⟩
+  | rollover =>
+    have := src_ss_rollover_eq_model lfuel st s h (rollOk_of_coh s f.data hc hch) (by omega)
+    exact ⟨by simp [srcStepS, outOfS, this.1, SStr.step], this.2⟩
+  | readlineN _ => simp [tiedS] at ht
+  | readlines => simp [tiedS] at ht
+  | getvalue => simp [tiedS] at ht
+  | next => simp [tiedS] at ht
+  | list => simp [tiedS] at ht
+  | drain => simp [tiedS] at ht
+  | writelines _ => simp [tiedS] at ht
+
+/-- a history of public calls on the GENERATED definitions -/
+def srcRunS (lfuel : Nat) (st : SS) : List (Op Char) → List (Except PyExc (Out Char)) × SS
+  | [] => ([], st)
+  | op :: ops =>
+    ((srcStepS lfuel st op).1 :: (srcRunS lfuel (srcStepS lfuel st op).2 ops).1,
+     (srcRunS lfuel (srcStepS lfuel st op).2 ops).2)
+
+/-- the loop fuel covers every state of the history: two more than the UTF-8 length of the reference content -/
+def fuelS (lfuel : Nat) (f : File Char) : List (Op Char) → Bool
+  | [] => true
+  | op :: ops => decide (blen f.data + 2 ≤ lfuel) && fuelS lfuel (Spec.step textSem f op).2 ops
+
+theorem src_ss_run_eq_model (lfuel : Nat) (st : SS) (s : SStr) (f : File Char) (ops : List (Op Char)) (h : RelS st s)
+    (hs : SRel s f) (ht : ∀ op ∈ ops, tiedS op = true) (hv : validS f ops = true) (hf : fuelS lfuel f ops = true) :
+    (srcRunS lfuel st ops).1 = (s.run ops).1.map .ok ∧ RelS (srcRunS lfuel st ops).2 (s.run ops).2 := by
+  induction ops generalizing st s f with
+  | nil => exact ⟨rfl, h⟩
+  | cons op ops ih =>
+    simp only [validS, Bool.and_eq_true] at hv
+    simp only [fuelS, Bool.and_eq_true, decide_eq_true_eq] at hf
+    have hdata : s.st.data.length = blen f.data := by rw [hs.1.data]; rfl
+    have h1 := src_ss_step_eq_model lfuel st s f op h hs (ht op (by simp)) hv.1 (by omega)
+    have hs2 := (SStr.step_spec s f op hs hv.1).2
+    have h2 := ih (srcStepS lfuel st op).2 (s.step op).2 _ h1.2 hs2 (fun o ho => ht o (by simp [ho])) hv.2 hf.2
+    simp only [srcRunS, SStr.run, List.map_cons]
+    exact ⟨by rw [h1.1, h2.1], h2.2⟩
+
+/-- a fresh `SpooledStringIO(max_size=m)` with `READ_CHUNK_SIZE = ch` -/
+def srcInitS (m ch : Nat) : SS := { buffer := CFile.newMem, tell := 0, max_size := m, dir := (), chunk := ch }
+
+theorem RelS_init (m ch : Nat) : RelS (srcInitS m ch) (SStr.init m ch) := ⟨rfl, rfl, rfl, rfl, rfl, rfl, rfl⟩
+
+/-- HISTORIES: from a fresh object, every history of translated calls inside the statement's domain runs on the
+    generated definitions without an exception (no decoding error, no loop out of fuel), returns call by call what the
+    model returns, and ends in an object standing for the model's final state -/
+theorem src_ss_history_refines (lfuel m ch : Nat) (hch : 0 < ch) (ops : List (Op Char))
+    (ht : ∀ op ∈ ops, tiedS op = true) (hv : validS File.empty ops = true) (hf : fuelS lfuel File.empty ops = true) :
+    (srcRunS lfuel (srcInitS m ch) ops).1 = ((SStr.init m ch).run ops).1.map .ok ∧
+    RelS (srcRunS lfuel (srcInitS m ch) ops).2 ((SStr.init m ch).run ops).2 :=
+  src_ss_run_eq_model lfuel _ _ File.empty ops (RelS_init m ch) (SRel_init m ch hch) ht hv hf
+
+/-- hence the property holds of what the SOURCE computes: a history of translated `SpooledStringIO` calls returns
+    exactly what `io.StringIO(newline='')` returns, ends with its position (in code points) and with its content
+    (UTF-8 encoded in the stream) — whatever `max_size` and `READ_CHUNK_SIZE` -/
+theorem src_string_refines_StringIO (lfuel m ch : Nat) (hch : 0 < ch) (ops : List (Op Char))
+    (ht : ∀ op ∈ ops, tiedS op = true) (hv : validS File.empty ops = true) (hf : fuelS lfuel File.empty ops = true) :
+    (srcRunS lfuel (srcInitS m ch) ops).1 = (Spec.run textSem File.empty ops).1.map .ok ∧
+    (srcRunS lfuel (srcInitS m ch) ops).2.tell = ((Spec.run textSem File.empty ops).2.pos : Int) ∧
+    (srcRunS lfuel (srcInitS m ch) ops).2.buffer.st.data = encode (Spec.run textSem File.empty ops).2.data := by
+  have h := src_ss_history_refines lfuel m ch hch ops ht hv hf
+  have hb := string_refines_StringIO m ch hch ops hv
+  exact ⟨by rw [h.1, hb.1], by rw [h.2.tell, hb.2.1], by rw [h.2.stream, hb.2.2]⟩
+
+/-- rolling over (and the chunk size) is invisible in what the source returns -/
+theorem src_string_rollover_invisible (lfuel m₁ m₂ ch₁ ch₂ : Nat) (h₁ : 0 < ch₁) (h₂ : 0 < ch₂) (ops : List (Op Char))
+    (ht : ∀ op ∈ ops, tiedS op = true) (hv : validS File.empty ops = true) (hf : fuelS lfuel File.empty ops = true) :
+    (srcRunS lfuel (srcInitS m₁ ch₁) ops).1 = (srcRunS lfuel (srcInitS m₂ ch₂) ops).1 ∧
+    (srcRunS lfuel (srcInitS m₁ ch₁) ops).2.tell = (srcRunS lfuel (srcInitS m₂ ch₂) ops).2.tell ∧
+    (srcRunS lfuel (srcInitS m₁ ch₁) ops).2.buffer.st.data = (srcRunS lfuel (srcInitS m₂ ch₂) ops).2.buffer.st.data := by
+  have a := src_string_refines_StringIO lfuel m₁ ch₁ h₁ ops ht hv hf
+  have b := src_string_refines_StringIO lfuel m₂ ch₂ h₂ ops ht hv hf
+  exact ⟨by rw [a.1, b.1], by rw [a.2.1, b.2.1], by rw [a.2.2, b.2.2]⟩
+
+/-- non-vacuity: a history with multi-byte text, a rollover by `max_size`, reads, a line, seeks of all three kinds, `len` -/
+def demoOpsS : List (Op Char) :=
+  [.write ['é', 'a', Char.ofNat 10], .seek 1, .read 1, .len, .seekEnd 0, .write ['b'], .seekCur 0, .seek 0, .readline,
+   .tell, .rollover, .readAll]
+example : (∀ op ∈ demoOpsS, tiedS op = true) ∧ validS File.empty demoOpsS = true ∧ fuelS 9 File.empty demoOpsS = true := by
+  decide
+
 end C18
